@@ -219,6 +219,26 @@ pub fn note(kind: u8, a: u64, b: u64) {
     });
 }
 
+fn with_rec<R>(f: impl FnOnce(&Rec) -> R, default: R) -> R {
+    CUR.with(|c| match c.borrow().as_ref() {
+        Some(r) => f(&r.lock().unwrap()),
+        None => default,
+    })
+}
+
+pub fn count_notes(kind: u8, a: u64, b: u64) -> usize {
+    with_rec(|r| r.notes.iter().filter(|n| n.0 == kind && n.1 == a && n.2 % 100 == b).count(), 0)
+}
+
+pub fn count_notes_kind(kind: u8, a: u64) -> usize {
+    with_rec(|r| r.notes.iter().filter(|n| n.0 == kind && n.1 == a).count(), 0)
+}
+
+/// number of ops completed so far in this iteration
+pub fn hist_len() -> u64 {
+    with_rec(|r| r.history.len() as u64, 0)
+}
+
 /// Run `prog` under loom with `cfg`, streaming every iteration to `sink`.
 pub fn run<S: IterSink + 'static>(prog: &Program, cfg: &Cfg, sink: S) -> (RunSummary, S) {
     let prog = Arc::new(prog.clone());
